@@ -1,5 +1,5 @@
 (* Props/C28.v — Vacuum preserves the database.  Only statements, `exact`, Print Assumptions. *)
-From NDB Require Import Store.Pager Store.Vacuum Store.Vacuum_proofs.
+From NDB Require Import Store.Pager Store.Vacuum Store.Vacuum_proofs Store.Vacuum_complete.
 
 (* vacuum.rs and csr.rs agree on the segment meta page (magic, counts, header, number of page lists incl. the
    reverse arrays) and on the node-table page range; the constants are regenerated from both source files *)
@@ -38,3 +38,19 @@ Definition C28_preserves_statement : Prop :=
 Theorem C28_preserves : C28_preserves_statement.
 Proof. exact vacuum_preserves_rooted. Qed.
 Print Assumptions C28_preserves.
+
+(* read_set ⊆ reachable for the model of the marking, for every heap on which no page is used by two
+   structures (a typing of the pages consistent with the roots and with every pointer) *)
+Definition C28_mark_complete_statement : Prop :=
+  forall ty h r vis, well_typed ty h r -> mark h r = Ok vis -> forall k id, reach h r k id -> In id vis.
+Theorem C28_mark_complete : C28_mark_complete_statement.
+Proof. exact mark_complete. Qed.
+Print Assumptions C28_mark_complete.
+
+(* hence: on a well-typed heap a successful vacuum preserves what every rooted reader computes *)
+Definition C28_preserves_typed_statement : Prop :=
+  forall ty A (rd : reader A) h r vis h',
+    well_typed ty h r -> vacuum h r = Ok (vis, h') -> rooted h r rd -> run_reader h' rd = run_reader h rd.
+Theorem C28_preserves_typed : C28_preserves_typed_statement.
+Proof. exact vacuum_preserves_typed. Qed.
+Print Assumptions C28_preserves_typed.
